@@ -103,6 +103,7 @@ package matcher
 //@
 //@ func (*gRepeat0).Match
 //@   requires p != nil && p.r != nil && wfM(p.r) && rank(p.r) < rank(Matcher(p)) && !nonNull(Matcher(p))
+//@   at call SetLastError#1 assert [c29.repeat0-failed-iteration-is-not-counted] n == athead(1, n) && src == athead(1, src)
 //@   ensures [c29.repeat0-never-fails] err == nil || isDyn(err)
 //@   ensures [c29.repeat0-list] istype(result, []any) && fresh(result.([]any))
 //@ loop (*gRepeat0).Match#1
@@ -112,6 +113,8 @@ package matcher
 //@
 //@ func (*gRepeat1).Match
 //@   requires p != nil && p.r != nil && wfM(p.r) && rank(p.r) < rank(Matcher(p)) && (nonNull(Matcher(p)) ==> nonNull(p.r))
+//@   at call SetLastError#1 assert [c29.repeat1-failed-iteration-is-not-counted] n == athead(1, n)
+//@   at call Match#2 assert [c29.repeat1-continues-where-it-stopped] arg0 == src[n:]
 //@   ensures [c29.repeat1-list] result != nil ==> istype(result, []any) && len(result.([]any)) >= 1 && fresh(result.([]any))
 //@   ensures [c29.repeat1-success-has-list] err == nil ==> result != nil
 //@ loop (*gRepeat1).Match#1
